@@ -61,7 +61,6 @@ func VerifC07Wiring() {
 	aborted, _ := verifServe(lb, rec, rec.finish, verifRequest("10.1.2.3:4711"))
 	f1, _, _ := lb.circuitBreaker.Counts()
 	failed := aborted || rec.status >= 500
-	verifrt.Known("C07-5xx-and-502-not-counted", failed && !aborted)
 	verifrt.Assert(verifrt.Implies(failed, f1 == f0+1), "a failed proxied request (5xx, unreachable backend, aborted response) counts as a breaker failure")
 	verifrt.Assert(verifrt.Implies(!failed, f1 == f0), "a successful proxied request is not counted as a failure")
 	if lb.circuitBreaker.State() == circuitbreaker.StateOpen {
